@@ -5,6 +5,7 @@ Workload: grid sign x integer part x 4 fractional digits x digit counts -3..6 x 
 supplied through overrides (dense), as workbook constants and as inline literals (sampled); percent on the
 same grid."""
 import decimal
+import math
 from decimal import Decimal
 
 from .. import pipeline, wbspec
@@ -22,14 +23,14 @@ RULE = ('grid of decimal texts (sign x integer part in {0,1,2,7,12,123,99999} x 
 ASSUMPTIONS = ['decimal.Decimal quantize is the reading of "decimal-exact" rounding',
                'a float override carries the double nearest to the decimal text (<= 9 significant digits here)',
                'CPython float()/repr round-trip']
-HOST_SETTINGS = {'shards': lambda shards: [1, len(shards) - 6, len(shards) - 4, len(shards) - 1], 'env': {'VERIF_HOST_DECIMAL': '4,ROUND_UP'}}
+HOST_SETTINGS = {'shards': lambda shards: [1, len(shards) - 6, len(shards) - 4, len(shards) - 1], 'env': {'VERIF_HOST_DECIMAL': '4,ROUND_UP,traps'}}
 FLOORS = {'quick': {'evaluations': 100000, 'nontrivial': 20000}, 'thorough': {'evaluations': 3000000, 'nontrivial': 500000}}
 
 IPS = [0, 1, 2, 7, 12, 123, 99999]
 DIGITS = list(range(-3, 7))
 MODES = {'ROUND': decimal.ROUND_HALF_UP, 'ROUNDUP': decimal.ROUND_UP, 'ROUNDDOWN': decimal.ROUND_DOWN}
-_CTX15 = decimal.Context(prec=15)
-_CTXBIG = decimal.Context(prec=400)
+_CTX15 = decimal.Context(prec=15, traps=[])
+_CTXBIG = decimal.Context(prec=400, traps=[])
 
 
 def expected_round(fn, text, n):
@@ -99,6 +100,12 @@ def _check(r, fn, text, n, out, how, mon=None):
     exp, changed = expected_round(fn, text, n)
     r.ev()
     ok = outcome_matches(out, [exp], exact=True)
+    if ok and out.ok and isinstance(out.value, float) and out.value == 0 and math.copysign(1, out.value) < 0:
+        # the exact decimal result is the number zero; a cell has no negative zero (str() and JSON would show -0.0)
+        r.count('negative_zero_results')
+        report(r, ID, None, {'fn': fn, 'text': text, 'digits': n, 'how': how}, out.brief(), exp, monitor='negative-zero')
+    if exp == 0 and text.lstrip().startswith('-'):
+        r.count('negative_amounts_rounded_to_zero')
     if not ok:
         report(r, ID, None, {'fn': fn, 'text': text, 'digits': n, 'how': how}, out.brief(), exp,
                monitor='decimal-quantize',
